@@ -587,6 +587,68 @@ def obligations(tier):
                         "reference / genomic sequence) is answered or refused with a BioCantorException / ValueError, never with an internal error",
                    bounds="2 member kinds x 4 own parents x 4 owner parents x 10 earlier questions (closed by the solver)",
                    examples=[dict(kind=0, own=1, owner=3, pre=8), dict(kind=1, own=0, owner=1, pre=0)]))
+    def cds_within_exons():
+        """a coding transcript is built only when every CDS position is an exon position (the constructor compares more than the outer bounds); otherwise the
+        documented InvalidCDSIntervalError - never a transcript whose CDS cannot be placed on it"""
+        from inscripta.biocantor.exc import InvalidCDSIntervalError
+
+        def fn(s0, l0, g1, l1, cs, cl, c2s, c2l, two):
+            ex = [(s0, s0 + l0), (s0 + l0 + g1, s0 + l0 + g1 + l1)]
+            cds = [(cs, cs + cl)] + ([(c2s, c2s + c2l)] if two else [])
+            inside = AND(*[OR(*[AND(e[0] <= c[0], c[1] <= e[1]) for e in ex]) for c in cds])
+            try:
+                t = TranscriptInterval([e[0] for e in ex], [e[1] for e in ex], PLUS, [c[0] for c in cds], [c[1] for c in cds], [CDSFrame.ZERO] * len(cds), guid=1)
+            except InvalidCDSIntervalError:
+                return NOT(inside)
+            return AND(inside, t.is_coding, t.cds_start == cds[0][0], t.cds_end == cds[-1][1], t.cds_pos_to_transcript(0) >= 0)
+
+        return fn
+
+    out.append(Obl("cds_blocks_within_exons", cds_within_exons(), dict(s0=int, l0=int, g1=int, l1=int, cs=int, cl=int, c2s=int, c2l=int, two=bool),
+                   lambda s0, l0, g1, l1, cs, cl, c2s, c2l, two: s0 >= 0 and l0 >= 1 and g1 >= 1 and l1 >= 1 and cs >= 0 and cl >= 1 and c2l >= 1 and c2s >= cs + cl, budget=600, cost=40,
+                   desc="two-exon transcript with one or two CDS blocks anywhere: built exactly when every CDS block lies inside an exon (then coding, with the given CDS "
+                        "bounds and a placeable first CDS position), refused with InvalidCDSIntervalError otherwise - including CDS blocks inside the intron, which the outer-"
+                        "bounds comparison alone lets through", bounds="2 exons (intron >= 1), 1..2 CDS blocks, unbounded symbolic coordinates",
+                   examples=[dict(s0=0, l0=10, g1=30, l1=10, cs=5, cl=5, c2s=30, c2l=1, two=True), dict(s0=0, l0=10, g1=30, l1=10, cs=5, cl=5, c2s=40, c2l=5, two=True)]))
+    from harness.c02 import _ex2, _params2, _pre2, parent_flags_fn
+
+    for kind in ("mismatch_placement", "mismatch_placement_strand", "mismatch_grandparent", "mismatch_type"):
+        out.append(Obl("strict_parent_compare_refuses_%s" % kind, parent_flags_fn(kind, True), _params2(1, 1, {"p": int}), _pre2(1, 1), budget=120, cost=4,
+                       desc="(shared with C02) has_overlap / intersection / minus / contains with strict_parent_compare on locations whose parents differ only in %s: "
+                            "refused with MismatchedParentException, nothing is combined across two coordinate systems" % {
+                                "mismatch_placement": "WHERE the same-named system sits on its own parent", "mismatch_placement_strand": "the strand of the system's placement on its own parent",
+                                "mismatch_grandparent": "the grandparent's id", "mismatch_type": "the sequence type"}[kind],
+                       bounds="1x1 blocks, unbounded symbolic coordinates", examples=[_ex2(1, 1, p=5)]))
+    def alphabet_foreign_characters():
+        """every alphabet refuses a text holding ONE character outside it - any ASCII control, white-space, punctuation or letter, at the first, an inner or the
+        LAST position (a trailing line feed included), alone or doubled - with AlphabetError (or another ValueError); texts of its own letters are accepted"""
+        from inscripta.biocantor.exc import AlphabetError
+
+        def fn(a, c, where):
+            a, c, where = concretize(a, c, where)
+            with untraced():
+                alpha = sorted(Alphabet, key=lambda x: x.name)[a]
+                letters = alpha.value
+                ch = chr(c)
+                base = (letters * 3)[:7]
+                text = [ch + base, base[:3] + ch + base[3:], base + ch, base + ch + ch, ch][where]
+                legal = ch.upper() in letters if ch.isalpha() or ch in letters else False
+                try:
+                    sq = Sequence(text, alpha)
+                except (AlphabetError, ValueError):
+                    return not legal
+                return legal and len(sq) == len(text) and str(sq) == text
+
+        return fn
+
+    quick = tier == "quick"
+    nalpha = len(list(Alphabet))
+    out.append(Obl("alphabet_foreign_character_anywhere", alphabet_foreign_characters(), dict(a=int, c=int, where=int),
+                   lambda a, c, where: 0 <= a and a < nalpha and 0 <= c and c <= 127 and 0 <= where and where <= 4 and (not quick or (a + c) % 2 == 0), budget=900, cost=60,
+                   desc="Sequence(text, alphabet) for every alphabet and every 7-bit character placed first / inside / last / doubled at the end / alone in a text of the "
+                        "alphabet's own letters: accepted exactly when the character (case-folded) belongs to the alphabet, refused with AlphabetError otherwise - a "
+                        "trailing line feed, tab or blank is not overlooked", bounds="%d alphabets x 128 characters x 5 positions%s (closed by the solver)" % (
+                       nalpha, " (half in the quick tier)" if quick else ""), examples=[dict(a=0, c=10, where=2), dict(a=2, c=66, where=1)]))
     out.append(Obl("deep_location", deep_location(), dict(n=int), lambda n: n == 2 or n == 400 or n == 1200 or n == 5000, budget=120, cost=10,
                    desc="locations with 2 / 400 / 1200 / 5000 blocks answer positional queries without RecursionError", bounds="4 sizes (concrete)",
                    examples=[dict(n=400)]))
